@@ -818,7 +818,8 @@ Definition assemble (d : doc) (lcs : list line_calc) (sum : amount) (dds ccs : l
   let total := match included with Some ti => sub total1 ti | None => total1 end in
   let tax := precise_or taxsum taxsum_r in
   let twt := add total tax in
-  let payable := match d_rounding d with Some r => add twt r | None => twt end in
+  let rounding := match d_rounding d with Some r => Some (rescale r c) | None => None end in
+  let payable := match rounding with Some r => add twt r | None => twt end in
   let advs := map (advance_amount c twt) (d_advances d) in
   let advances := sum_opt c advs in
   let due := match advances with Some a => Some (sub payable a) | None => None end in
@@ -829,7 +830,7 @@ Definition assemble (d : doc) (lcs : list line_calc) (sum : amount) (dds ccs : l
            (map (fun p => present_ddc c (fst p) (snd p)) dds)
            (map (fun p => present_ddc c (fst p) (snd p)) ccs)
            (map R advs) (map (due_amount c payable) (d_dues d))
-           cats taxsum_r taxsum.
+           cats taxsum_r taxsum rounding.
 
 Definition calc_final (d : doc) (lcs : list line_calc) (sum : amount) (dds ccs : list (ddc * amount))
     (tls2 : list tax_line) : totals :=
@@ -873,7 +874,7 @@ Definition totals_same_up_to_order (t t' : totals) : Prop :=
   Permutation (t_dd t) (t_dd t') /\ Permutation (t_cc t) (t_cc t') /\
   t_adv_rows t = t_adv_rows t' /\ t_dues t = t_dues t' /\
   PermutationA ceqv (t_cats t) (t_cats t') /\
-  t_taxsum t = t_taxsum t' /\ t_taxsum_precise t = t_taxsum_precise t'.
+  t_taxsum t = t_taxsum t' /\ t_taxsum_precise t = t_taxsum_precise t' /\ t_rounding t = t_rounding t'.
 
 Definition result_same_up_to_order (r r' : calc_result) : Prop :=
   match r, r' with
@@ -981,7 +982,7 @@ Proof.
   2:{ rewrite calc_codes. apply groups_pairwise_distinct. }
   unfold assemble, totals_same_up_to_order. cbv zeta.
   cbn [t_lines t_sum t_discount t_charge t_tax_included t_total t_tax t_twt t_payable t_advances t_due t_dd t_cc
-       t_adv_rows t_dues t_cats t_taxsum t_taxsum_precise].
+       t_adv_rows t_dues t_cats t_taxsum t_taxsum_precise t_rounding].
   repeat split; try reflexivity.
   - apply Permutation_map, Pl.
   - apply Permutation_map, Pd.
